@@ -33,7 +33,8 @@ Proof.
                 ltac:(lia) ltac:(lia)) as (m & E1 & Lm & E2).
     destruct (commit_loop (N.to_nat count) (s_buf s) 0 count (clogC s) (0, zeros32)) as [clog1 r] eqn:EL.
     cbn [fst snd] in E1, E2. cbn [skipn N.to_nat] in E1. subst clog1.
-    assert (Hfail : live (upd_clog s (clogC s ++ map cent (firstn m (pb_list (s_buf s))))) = live s) by apply Hsame.
+    assert (Hfail : live (upd_clog s (clogC s)) = live s).
+    { rewrite <- (app_nil_r (clogC s)) at 1. apply Hsame. }
     destruct r as [[lid lalh]|e|]; [|cbn [fst]; split; [exact Hfail|repeat split]|cbn [fst]; split; [exact Hfail|repeat split]].
     destruct E2 as (Em & E3 & _).
     destruct (E3 ltac:(lia)) as (Lc & pe & Hn & -> & ->).
@@ -270,63 +271,18 @@ Proof.
   constructor; [rewrite El, Ei, Ea; exact Ja|rewrite Et; exact Jw].
 Qed.
 
-Lemma discard_fx s n : Inv s ->
-  let s' := fst (discard s n) in
-  s_txlog s' = s_txlog s /\ s_wait s' = s_wait s /\
-  ((live s' = live s /\ s_inmem s' = s_inmem s /\ s_aht s' = s_aht s) \/
-   (exists m, s_committed s < n /\ n <= s_inmem s /\ m = N.to_nat (n - 1) /\
-              live s' = firstn m (live s) /\ s_inmem s' = n - 1 /\
-              s_aht s' = firstn (N.to_nat (if lenN (s_aht s) <? s_inmem s + 1 - n
-                                           then lenN (s_aht s) + 2 ^ 64 - (s_inmem s + 1 - n)
-                                           else lenN (s_aht s) - (s_inmem s + 1 - n))) (s_aht s))).
-Proof using H.
-  intros HI. cbn zeta. unfold discard.
-  destruct (N.eqb_spec n 0) as [E0|N0]; [cbn [fst]; auto 10|].
-  destruct (N.leb_spec n (s_committed s)) as [L1|L1]; [cbn [fst]; auto 10|].
-  destruct (N.ltb_spec (s_inmem s) n) as [L2|L2]; [cbn [fst]; auto 10|].
-  remember (s_inmem s + 1 - n) as cnt eqn:Ecnt.
-  destruct (aht_reset (s_aht s) _) as [a'| |] eqn:Ear; [|cbn [fst]; auto 10|cbn [fst]; auto 10].
-  sp. pose proof HI as [? Hbok Hclen ? ? Hids Hinm ? ? ?].
-  assert (Hcnt : pb_count (s_buf s) = lenN (pb_list (s_buf s))) by (symmetry; apply pb_list_length).
-  destruct (pb_recede_ok (s_buf s) cnt Hbok ltac:(lia) ltac:(lia)) as (b' & Eb & Hok' & Hl' & Hs').
-  rewrite Eb. sp.
-  replace (N.to_nat (pb_count (s_buf s) - cnt)) with (N.to_nat (n - 1 - s_committed s)) in Hl' by lia.
-  assert (HC : lenN (clogC s) = s_committed s) by (apply clogC_len; auto).
-  assert (Ha' : a' = firstn (N.to_nat (if lenN (s_aht s) <? cnt then lenN (s_aht s) + 2 ^ 64 - cnt
-                                       else lenN (s_aht s) - cnt)) (s_aht s)).
-  { unfold aht_reset in Ear. destruct (_ <? _) in Ear; [discriminate|]. injection Ear as <-. reflexivity. }
-  assert (Hlive : forall st, s_clog st = s_clog s -> s_committed st = s_committed s -> s_buf st = b' ->
-                             live st = firstn (N.to_nat (n - 1)) (live s)).
-  { intros st E1 E2 E3. unfold live. unfold clogC at 1. rewrite E1, E2, E3, Hl'. fold (clogC s).
-    replace (N.to_nat (n - 1)) with (length (clogC s) + N.to_nat (n - 1 - s_committed s))%nat
-      by (unfold lenN in HC; lia).
-    rewrite firstn_app_2, firstn_map. reflexivity. }
-  destruct (N.eqb_spec (n - 1) (s_committed s)) as [E1|N1].
-  - cbn [fst]. sp. split; [reflexivity|]. split; [reflexivity|]. right.
-    exists (N.to_nat (n - 1)). split; [lia|]. split; [lia|]. split; [reflexivity|].
-    split; [apply Hlive; reflexivity|]. split; [lia|exact Ha'].
-  - destruct (N.ltb_spec (s_inmem s - s_committed s - 1) cnt) as [L3|L3]; [lia|].
-    rewrite (pb_read_ahead_spec b' _ Hok'), Hl'.
-    remember (N.to_nat (n - 1 - s_committed s)) as m eqn:Em.
-    replace (N.to_nat (s_inmem s - s_committed s - 1 - cnt)) with (m - 1)%nat by lia.
-    assert (Hm : (m - 1 < length (pb_list (s_buf s)))%nat) by (unfold lenN in *; lia).
-    destruct (nth_error (pb_list (s_buf s)) (m - 1)) as [pe|] eqn:Hn; [|apply nth_error_None in Hn; lia].
-    rewrite nth_error_firstn' by lia. rewrite Hn.
-    assert (Hid : pe_id pe = n - 1) by (rewrite (Hids _ _ Hn); lia).
-    destruct (N.eqb_spec (pe_id pe) (n - 1)) as [_|NE]; [|congruence].
-    cbn [fst]. sp. split; [reflexivity|]. split; [reflexivity|]. right.
-    exists (N.to_nat (n - 1)). split; [lia|]. split; [lia|]. split; [reflexivity|].
-    split; [apply Hlive; reflexivity|]. split; [reflexivity|exact Ha'].
-Qed.
-
 Lemma discard_inv2 s n : Inv s -> Inv2 s -> Inv2 (fst (discard s n)).
 Proof.
-  intros HI HJ. destruct (discard_fx s n HI) as (Et & _ & [(El & Ei & Ea)|(m & L1 & L2 & Em & El & Ei & Ea)]).
-  - pose proof HJ as [Ja Jw]. constructor; [rewrite El, Ei, Ea; exact Ja|rewrite Et; exact Jw].
-  - pose proof HJ as [Ja Jw]. pose proof (live_len s HI) as Hll.
+  intros HI HJ. pose proof HJ as [Ja Jw].
+  destruct (discard_full H s n HI) as (_ & (B & Hd & _) & _ & _ & _ & _ & Hfx).
+  assert (Jw' : Forall Wp (s_txlog (fst (discard s n)))).
+  { apply Forall_forall. intros w Hin. eapply drops_in in Hin; [|exact Hd]. eapply Forall_forall in Jw; eauto. }
+  destruct Hfx as [(El & Ei & Ea)|(m & L1 & L2 & Em & El & Ei & Ea)].
+  - constructor; [rewrite El, Ei, Ea; exact Ja|exact Jw'].
+  - pose proof (live_len s HI) as Hll.
     assert (Hahtlen : s_inmem s <= lenN (s_aht s)).
     { apply (f_equal (@length bytes)) in Ja. rewrite firstn_length, map_length in Ja. unfold lenN in *. lia. }
-    constructor; [|rewrite Et; exact Jw].
+    constructor; [|exact Jw'].
     rewrite Ei, Ea, El. rewrite firstn_firstn.
     destruct (N.ltb_spec (lenN (s_aht s)) (s_inmem s + 1 - n)); [lia|].
     replace (Nat.min (N.to_nat (n - 1)) (N.to_nat (lenN (s_aht s) - (s_inmem s + 1 - n)))) with m by lia.
@@ -472,10 +428,10 @@ Qed.
 
 Definition is_reopen (o : op) : bool := match o with OReopen => true | _ => false end.
 
-Lemma step_inv2 s o : (is_reopen o = true -> lenN (s_clog s) = s_committed s) ->
-  Inv s -> Inv2 s -> Inv2 (fst (step H s o)).
+Lemma step_inv2 s o : Inv s -> Inv2 s -> Inv2 (fst (step H s o)).
 Proof.
-  intros Hclean HI HJ. destruct o; cbn [step].
+  intros HI HJ. assert (Hclean : lenN (s_clog s) = s_committed s) by (pose proof HI as []; auto).
+  destruct o; cbn [step].
   - destruct (begin_more s c p exp skipic) as [Ea _]. eapply Inv2_same; eauto. apply begin_core.
   - apply locked_inv2; auto.
   - unfold sync. destruct (s_inmem s =? s_committed s); [exact HJ|].
@@ -492,17 +448,10 @@ Proof.
   - apply reopen_inv2; auto.
 Qed.
 
-(* every reopen of the run happens with no commit-log entries beyond the committed id *)
-Fixpoint reopens_clean (s : state) (ops : list op) : Prop :=
-  match ops with
-  | [] => True
-  | o :: r => (is_reopen o = true -> lenN (s_clog s) = s_committed s) /\ reopens_clean (fst (step H s o)) r
-  end.
-
-Lemma run_inv2 ops : forall s, reopens_clean s ops -> Inv s -> Inv2 s -> Inv2 (run H s ops).
+Lemma run_inv2 ops : forall s, Inv s -> Inv2 s -> Inv2 (run H s ops).
 Proof.
-  induction ops as [|o ops IH]; intros s Hc HI HJ; [exact HJ|].
-  destruct Hc as [Ho Hr]. cbn [run fold_left]. apply IH; auto.
+  induction ops as [|o ops IH]; intros s HI HJ; [exact HJ|].
+  cbn [run fold_left]. apply IH.
   - apply step_inv; auto.
   - apply step_inv2; auto.
 Qed.
